@@ -18,11 +18,13 @@ package main
 
 import (
 	"context"
+	"errors"
 	"flag"
 	"fmt"
 	"os"
 	"sort"
 	"strings"
+	"sync/atomic"
 	"time"
 
 	incr "github.com/wcharczuk/go-incr"
@@ -675,6 +677,12 @@ type step struct {
 	A   int    // node id / cell index / minutes
 	B   int    // value
 	Par bool
+	// -faults, passes only: in the second world the user functions of definition F-1 fail in
+	// this pass (0: none), by returning an error where the signature has one if FErr, else by
+	// panicking; the pass is then retried fault-free with the stabilizer RetryPar says
+	F        int
+	FErr     bool
+	RetryPar bool
 }
 
 func (s step) String() string {
@@ -694,10 +702,12 @@ func (s step) String() string {
 	case "unobserve":
 		return fmt.Sprintf("Unobserve n%d", s.A)
 	case "pass":
-		if s.Par {
-			return "ParallelStabilize"
+		name := map[bool]string{false: "Stabilize", true: "ParallelStabilize"}
+		if s.F > 0 {
+			how := map[bool]string{false: "panic", true: "return an error (panic where they cannot)"}[s.FErr]
+			return fmt.Sprintf("%s [twin: the functions of n%d %s, then retry with %s]", name[s.Par], s.F-1, how, name[s.RetryPar])
 		}
-		return "Stabilize"
+		return name[s.Par]
 	}
 	return "?" + s.Op
 }
@@ -818,10 +828,43 @@ type world struct {
 	watches map[int]incr.WatchIncr[int]
 	cells   []int
 	obs     map[int]incr.ObserveIncr[int]
+
+	// values handed out by slice-valued nodes after earlier passes (see checkHanded)
+	retained []handed
+	latest   map[int][]int
+
+	// fault injection (-faults): every user function built for the definition failNode fails
+	// while it is set; with failErr those whose signature has an error return it, the others
+	// (and all of them without failErr) panic with it
+	ctxAPI             bool // build with the ...Context constructors, so that functions can return errors
+	failNode           int
+	failErr            bool
+	hits               int32
+	panicked, returned int32
 }
 
-func newWorld(p *prog) *world {
-	w := &world{p: p, g: incr.New(incr.OptGraphParallelism(4)), clock: incr.NewClock(base),
+var errInjected = errors.New("kindtrace: injected fault")
+
+// trip is called at the top of every user function; id is the definition it was built for
+func (w *world) trip(id int, canReturn bool) error {
+	if w.failNode != id {
+		return nil
+	}
+	atomic.AddInt32(&w.hits, 1)
+	if w.failErr && canReturn {
+		atomic.StoreInt32(&w.returned, 1)
+		return errInjected
+	}
+	atomic.StoreInt32(&w.panicked, 1)
+	panic(errInjected)
+}
+
+func (w *world) must(id int) { _ = w.trip(id, false) }
+
+func newWorld(p *prog) *world { return newWorldAPI(p, false) }
+
+func newWorldAPI(p *prog, ctxAPI bool) *world {
+	w := &world{p: p, g: incr.New(incr.OptGraphParallelism(4)), clock: incr.NewClock(base), failNode: -1, ctxAPI: ctxAPI, latest: map[int][]int{},
 		ints: make([]incr.Incr[int], len(p.defs)), slices: make([]incr.Incr[[]int], len(p.defs)),
 		vars: map[int]incr.VarIncr[int]{}, watches: map[int]incr.WatchIncr[int]{},
 		cells: make([]int, p.cells), obs: map[int]incr.ObserveIncr[int]{}}
@@ -831,36 +874,40 @@ func newWorld(p *prog) *world {
 	return w
 }
 
-func (w *world) buildT(bs incr.Scope, t *tmpl, bound []int) incr.Incr[int] {
-	kid := func(i int) incr.Incr[int] { return w.buildT(bs, t.Kids[i], bound) }
+func (w *world) buildT(bs incr.Scope, t *tmpl, bound []int, id int) incr.Incr[int] {
+	kid := func(i int) incr.Incr[int] { return w.buildT(bs, t.Kids[i], bound, id) }
+	even := func(x int) bool { w.must(id); return isEven(x) }
 	switch t.Op {
 	case "outer":
 		return w.ints[t.N]
 	case "ret":
 		return incr.Return(bs, wsum(t.C, bound...))
 	case "map":
-		return incr.Map(bs, kid(0), func(x int) int { return un(t.Fn, t.C, x) })
+		return incr.Map(bs, kid(0), func(x int) int { w.must(id); return un(t.Fn, t.C, x) })
 	case "map2":
-		return incr.Map2(bs, kid(0), kid(1), func(x, y int) int { return bin(t.Fn, x, y) })
+		return incr.Map2(bs, kid(0), kid(1), func(x, y int) int { w.must(id); return bin(t.Fn, x, y) })
 	case "map3":
-		return incr.Map3(bs, kid(0), kid(1), kid(2), func(x, y, z int) int { return wsum(t.C, x, y, z) })
+		return incr.Map3(bs, kid(0), kid(1), kid(2), func(x, y, z int) int { w.must(id); return wsum(t.C, x, y, z) })
 	case "mapif":
-		return incr.MapIf(bs, kid(0), kid(1), incr.Map(bs, kid(2), isEven))
+		return incr.MapIf(bs, kid(0), kid(1), incr.Map(bs, kid(2), even))
 	case "arrayfold":
 		ins := make([]incr.Incr[int], len(t.Kids))
 		for i := range ins {
 			ins[i] = kid(i)
 		}
-		return incr.ArrayFold(bs, t.C, foldStep, ins...)
+		return incr.ArrayFold(bs, t.C, func(acc, x int) int { w.must(id); return foldStep(acc, x) }, ins...)
 	case "cutoffeq":
 		return incr.CutoffEqual(bs, kid(0))
 	case "bindif":
-		return incr.BindIf(bs, incr.Map(bs, kid(0), isEven), func(_ context.Context, s incr.Scope, b bool) (incr.Incr[int], error) {
+		return incr.BindIf(bs, incr.Map(bs, kid(0), even), func(_ context.Context, s incr.Scope, b bool) (incr.Incr[int], error) {
+			if err := w.trip(id, true); err != nil {
+				return nil, err
+			}
 			pick := t.Kids[2]
 			if b {
 				pick = t.Kids[1]
 			}
-			return w.buildT(s, pick, []int{b2i(b)}), nil
+			return w.buildT(s, pick, []int{b2i(b)}, id), nil
 		})
 	}
 	panic("kindtrace: unknown template op " + t.Op)
@@ -868,6 +915,10 @@ func (w *world) buildT(bs incr.Scope, t *tmpl, bound []int) incr.Incr[int] {
 
 func (w *world) buildNode(d *def) {
 	g := w.g
+	id := d.ID
+	must := func() { w.must(id) }
+	try := func() error { return w.trip(id, true) }
+	even := func(x int) bool { must(); return isEven(x) }
 	in := func(i int) incr.Incr[int] { return w.ints[d.In[i]] }
 	sl := func(i int) incr.Incr[[]int] { return w.slices[d.In[i]] }
 	all := func() []incr.Incr[int] {
@@ -887,45 +938,115 @@ func (w *world) buildNode(d *def) {
 	case kReturn:
 		n = incr.Return(g, d.C)
 	case kMap:
-		n = incr.Map(g, in(0), func(x int) int { return un(d.Op, d.C, x) })
+		// with -faults the odd ones are built with MapContext, whose function can return the error
+		if w.ctxAPI && id%2 == 1 {
+			n = incr.MapContext(g, in(0), func(_ context.Context, x int) (int, error) { return un(d.Op, d.C, x), try() })
+		} else {
+			n = incr.Map(g, in(0), func(x int) int { must(); return un(d.Op, d.C, x) })
+		}
 	case kMap2:
-		n = incr.Map2(g, in(0), in(1), func(x, y int) int { return bin(d.Op, x, y) })
+		if w.ctxAPI && id%2 == 1 {
+			n = incr.Map2Context(g, in(0), in(1), func(_ context.Context, x, y int) (int, error) { return bin(d.Op, x, y), try() })
+		} else {
+			n = incr.Map2(g, in(0), in(1), func(x, y int) int { must(); return bin(d.Op, x, y) })
+		}
 	case kMap3:
-		n = incr.Map3(g, in(0), in(1), in(2), func(a, b, c int) int { return wsum(d.C, a, b, c) })
+		f := func(a, b, c int) int { must(); return wsum(d.C, a, b, c) }
+		if w.ctxAPI { // Map3..Map8 are wrappers of these
+			n = incr.Map3Context(g, in(0), in(1), in(2), func(_ context.Context, a, b, c int) (int, error) { return wsum(d.C, a, b, c), try() })
+		} else {
+			n = incr.Map3(g, in(0), in(1), in(2), f)
+		}
 	case kMap4:
-		n = incr.Map4(g, in(0), in(1), in(2), in(3), func(a, b, c, e int) int { return wsum(d.C, a, b, c, e) })
+		f := func(a, b, c, e int) int { must(); return wsum(d.C, a, b, c, e) }
+		if w.ctxAPI {
+			n = incr.Map4Context(g, in(0), in(1), in(2), in(3), func(_ context.Context, a, b, c, e int) (int, error) { return wsum(d.C, a, b, c, e), try() })
+		} else {
+			n = incr.Map4(g, in(0), in(1), in(2), in(3), f)
+		}
 	case kMap5:
-		n = incr.Map5(g, in(0), in(1), in(2), in(3), in(4), func(a, b, c, e, f int) int { return wsum(d.C, a, b, c, e, f) })
+		f := func(a, b, c, e, f int) int { must(); return wsum(d.C, a, b, c, e, f) }
+		if w.ctxAPI {
+			n = incr.Map5Context(g, in(0), in(1), in(2), in(3), in(4), func(_ context.Context, a, b, c, e, f int) (int, error) { return wsum(d.C, a, b, c, e, f), try() })
+		} else {
+			n = incr.Map5(g, in(0), in(1), in(2), in(3), in(4), f)
+		}
 	case kMap6:
-		n = incr.Map6(g, in(0), in(1), in(2), in(3), in(4), in(5), func(a, b, c, e, f, h int) int { return wsum(d.C, a, b, c, e, f, h) })
+		f := func(a, b, c, e, f, h int) int { must(); return wsum(d.C, a, b, c, e, f, h) }
+		if w.ctxAPI {
+			n = incr.Map6Context(g, in(0), in(1), in(2), in(3), in(4), in(5), func(_ context.Context, a, b, c, e, f, h int) (int, error) { return wsum(d.C, a, b, c, e, f, h), try() })
+		} else {
+			n = incr.Map6(g, in(0), in(1), in(2), in(3), in(4), in(5), f)
+		}
 	case kMap7:
-		n = incr.Map7(g, in(0), in(1), in(2), in(3), in(4), in(5), in(6), func(a, b, c, e, f, h, i int) int { return wsum(d.C, a, b, c, e, f, h, i) })
+		f := func(a, b, c, e, f, h, i int) int { must(); return wsum(d.C, a, b, c, e, f, h, i) }
+		if w.ctxAPI {
+			n = incr.Map7Context(g, in(0), in(1), in(2), in(3), in(4), in(5), in(6), func(_ context.Context, a, b, c, e, f, h, i int) (int, error) {
+				return wsum(d.C, a, b, c, e, f, h, i), try()
+			})
+		} else {
+			n = incr.Map7(g, in(0), in(1), in(2), in(3), in(4), in(5), in(6), f)
+		}
 	case kMap8:
-		n = incr.Map8(g, in(0), in(1), in(2), in(3), in(4), in(5), in(6), in(7), func(a, b, c, e, f, h, i, j int) int { return wsum(d.C, a, b, c, e, f, h, i, j) })
+		f := func(a, b, c, e, f, h, i, j int) int { must(); return wsum(d.C, a, b, c, e, f, h, i, j) }
+		if w.ctxAPI {
+			n = incr.Map8Context(g, in(0), in(1), in(2), in(3), in(4), in(5), in(6), in(7), func(_ context.Context, a, b, c, e, f, h, i, j int) (int, error) {
+				return wsum(d.C, a, b, c, e, f, h, i, j), try()
+			})
+		} else {
+			n = incr.Map8(g, in(0), in(1), in(2), in(3), in(4), in(5), in(6), in(7), f)
+		}
 	case kMapIf:
-		n = incr.MapIf(g, in(0), in(1), incr.Map(g, in(2), isEven))
+		n = incr.MapIf(g, in(0), in(1), incr.Map(g, in(2), even))
 	case kBindIf:
-		n = incr.BindIf(g, incr.Map(g, in(0), isEven), func(_ context.Context, bs incr.Scope, b bool) (incr.Incr[int], error) {
+		n = incr.BindIf(g, incr.Map(g, in(0), even), func(_ context.Context, bs incr.Scope, b bool) (incr.Incr[int], error) {
+			if err := try(); err != nil {
+				return nil, err
+			}
 			pick := d.T[1]
 			if b {
 				pick = d.T[0]
 			}
-			return w.buildT(bs, pick, []int{b2i(b)}), nil
+			return w.buildT(bs, pick, []int{b2i(b)}, id), nil
 		})
 	case kBind3:
-		n = incr.Bind3(g, in(0), in(1), in(2), func(bs incr.Scope, a, b, c int) incr.Incr[int] {
-			return w.buildT(bs, d.T[(a+b+c)%len(d.T)], []int{a, b, c})
-		})
+		if w.ctxAPI {
+			n = incr.Bind3Context(g, in(0), in(1), in(2), func(_ context.Context, bs incr.Scope, a, b, c int) (incr.Incr[int], error) {
+				if err := try(); err != nil {
+					return nil, err
+				}
+				return w.buildT(bs, d.T[(a+b+c)%len(d.T)], []int{a, b, c}, id), nil
+			})
+		} else {
+			n = incr.Bind3(g, in(0), in(1), in(2), func(bs incr.Scope, a, b, c int) incr.Incr[int] {
+				must()
+				return w.buildT(bs, d.T[(a+b+c)%len(d.T)], []int{a, b, c}, id)
+			})
+		}
 	case kBind4:
-		n = incr.Bind4(g, in(0), in(1), in(2), in(3), func(bs incr.Scope, a, b, c, e int) incr.Incr[int] {
-			return w.buildT(bs, d.T[(a+b+c+e)%len(d.T)], []int{a, b, c, e})
-		})
+		if w.ctxAPI {
+			n = incr.Bind4Context(g, in(0), in(1), in(2), in(3), func(_ context.Context, bs incr.Scope, a, b, c, e int) (incr.Incr[int], error) {
+				if err := try(); err != nil {
+					return nil, err
+				}
+				return w.buildT(bs, d.T[(a+b+c+e)%len(d.T)], []int{a, b, c, e}, id), nil
+			})
+		} else {
+			n = incr.Bind4(g, in(0), in(1), in(2), in(3), func(bs incr.Scope, a, b, c, e int) incr.Incr[int] {
+				must()
+				return w.buildT(bs, d.T[(a+b+c+e)%len(d.T)], []int{a, b, c, e}, id)
+			})
+		}
 	case kCutoff2:
-		n = incr.Cutoff2(g, in(0), in(1), cut2)
+		if w.ctxAPI {
+			n = incr.Cutoff2Context(g, in(0), in(1), func(_ context.Context, eps, old, new int) (bool, error) { return cut2(eps, old, new), try() })
+		} else {
+			n = incr.Cutoff2(g, in(0), in(1), func(eps, old, new int) bool { must(); return cut2(eps, old, new) })
+		}
 	case kCutEq:
 		n = incr.CutoffEqual(g, in(0))
 	case kCutEqFunc:
-		n = incr.CutoffEqualFunc(g, in(0), func(a, b int) bool { return a%d.C == b%d.C })
+		n = incr.CutoffEqualFunc(g, in(0), func(a, b int) bool { must(); return a%d.C == b%d.C })
 	case kCutNever:
 		n = incr.CutoffNever(g, in(0))
 	case kCutAlways:
@@ -935,7 +1056,7 @@ func (w *world) buildNode(d *def) {
 	case kFreeze:
 		n = incr.Freeze(g, in(0))
 	case kFunc:
-		n = incr.Func(g, func(context.Context) (int, error) { return w.cells[d.C], nil })
+		n = incr.Func(g, func(context.Context) (int, error) { return w.cells[d.C], try() })
 	case kWatch:
 		wt := incr.Watch(g, in(0))
 		w.watches[d.ID] = wt
@@ -947,7 +1068,7 @@ func (w *world) buildNode(d *def) {
 		}
 		n = incr.Timer(g, in(0), every)
 	case kAt:
-		n = incr.Map(g, incr.At(g, w.clock, minute(d.C)), func(b bool) int { return b2i(b) * d.C2 })
+		n = incr.Map(g, incr.At(g, w.clock, minute(d.C)), func(b bool) int { must(); return b2i(b) * d.C2 })
 	case kAtIntervals:
 		n = incr.AtIntervals(g, w.clock, time.Duration(d.C)*time.Minute)
 	case kSnapshot:
@@ -959,20 +1080,20 @@ func (w *world) buildNode(d *def) {
 		}
 		n = incr.StepFunction(g, w.clock, d.C, steps...)
 	case kArrayFold:
-		n = incr.ArrayFold(g, d.C, foldStep, all()...)
+		n = incr.ArrayFold(g, d.C, func(acc, x int) int { must(); return foldStep(acc, x) }, all()...)
 	case kForAll, kExists:
-		pred := forAllPred
+		pred := func(x int) bool { must(); return forAllPred(x) }
 		if d.Kind == kExists {
-			pred = existsPred
+			pred = func(x int) bool { must(); return existsPred(x) }
 		}
 		bools := make([]incr.Incr[bool], len(d.In))
 		for i := range bools {
 			bools[i] = incr.Map(g, in(i), pred)
 		}
 		if d.Kind == kForAll {
-			n = incr.Map(g, incr.ForAll(g, bools...), b2i)
+			n = incr.Map(g, incr.ForAll(g, bools...), func(b bool) int { must(); return b2i(b) })
 		} else {
-			n = incr.Map(g, incr.Exists(g, bools...), b2i)
+			n = incr.Map(g, incr.Exists(g, bools...), func(b bool) int { must(); return b2i(b) })
 		}
 	case kDependOn:
 		var dep incr.INode = w.ints[d.In[1]]
@@ -981,43 +1102,45 @@ func (w *world) buildNode(d *def) {
 		}
 		n = incr.DependOn(g, in(0), dep)
 	case kMapLast:
-		n = incrutil.MapLast(g, in(0), func(prev, cur int) int { return mapLastFn(d.C, prev, cur) })
+		n = incrutil.MapLast(g, in(0), func(prev, cur int) int { must(); return mapLastFn(d.C, prev, cur) })
 	case kFirst:
 		n = slicei.First(g, sl(0))
 	case kLast:
 		n = slicei.Last(g, sl(0))
 	case kHash:
-		n = incr.Map(g, sl(0), hashSlice)
+		n = incr.Map(g, sl(0), func(xs []int) int { must(); return hashSlice(xs) })
 	case kAll:
 		s = incr.All(g, all()...)
 	case kAccumulate:
-		s = slicei.Accumulate(g, in(0), accCapped(d.C))
+		acc := accCapped(d.C)
+		s = slicei.Accumulate(g, in(0), func(prev []int, v int) []int { must(); return acc(prev, v) })
 	case kAccSorted:
+		// the comparer is the user function here (it runs once the list is not empty)
 		if d.Op == "asc" {
-			s = slicei.AccumulateSorted(g, in(0), slicei.Asc[int])
+			s = slicei.AccumulateSorted(g, in(0), func(a, b int) int { must(); return slicei.Asc(a, b) })
 		} else {
-			s = slicei.AccumulateSorted(g, in(0), slicei.Desc[int])
+			s = slicei.AccumulateSorted(g, in(0), func(a, b int) int { must(); return slicei.Desc(a, b) })
 		}
 	case kFilter:
-		s = slicei.Filter(g, sl(0), func(v int) bool { return v%d.C != 0 })
+		s = slicei.Filter(g, sl(0), func(v int) bool { must(); return v%d.C != 0 })
 	case kSort:
 		if d.Op == "asc" {
-			s = slicei.Sort(g, sl(0), slicei.Asc[int])
+			s = slicei.Sort(g, sl(0), func(a, b int) int { must(); return slicei.Asc(a, b) })
 		} else {
-			s = slicei.Sort(g, sl(0), slicei.Desc[int])
+			s = slicei.Sort(g, sl(0), func(a, b int) int { must(); return slicei.Desc(a, b) })
 		}
 	case kTakeFirst:
 		s = slicei.TakeFirst(g, sl(0), d.C)
 	case kTakeLast:
 		s = slicei.TakeLast(g, sl(0), d.C)
 	case kTakeFirstSearch:
-		s = slicei.TakeFirstSearch(g, sl(0), func(v int) bool { return v >= d.C })
+		s = slicei.TakeFirstSearch(g, sl(0), func(v int) bool { must(); return v >= d.C })
 	case kTakeLastSearch:
-		s = slicei.TakeLastSearch(g, sl(0), func(v int) bool { return v > d.C })
+		s = slicei.TakeLastSearch(g, sl(0), func(v int) bool { must(); return v > d.C })
 	case kMapLastS:
-		n = incrutil.MapLast(g, sl(0), func(prev, cur []int) int { return mapLastSliceFn(d.Op, d.C, prev, cur) })
+		n = incrutil.MapLast(g, sl(0), func(prev, cur []int) int { must(); return mapLastSliceFn(d.Op, d.C, prev, cur) })
 	case kCutoffS:
-		s = incr.Cutoff(g, sl(0), sameLen)
+		s = incr.Cutoff(g, sl(0), func(a, b []int) bool { must(); return sameLen(a, b) })
 	default:
 		panic("kindtrace: unknown kind " + d.Kind)
 	}
@@ -1056,6 +1179,7 @@ type rnode struct {
 	stale    bool // marked for the next pass: Var.Set, Graph.SetStale, a clock trigger
 	epoch    int
 	chg      bool
+	ran      bool // in the pass `epoch`
 	v        int
 	s        []int
 	held     int   // cutoffs: the value last let through (initially the zero value)
@@ -1294,7 +1418,7 @@ func (r *ref) eval(id int) bool {
 	}
 	is := func() []int { return r.n[d.In[0]].s }
 	done := func(chg bool) bool {
-		n.computed, n.stale, n.epoch, n.chg = true, false, r.epoch, chg
+		n.computed, n.stale, n.epoch, n.chg, n.ran = true, false, r.epoch, chg, true
 		return chg
 	}
 
@@ -1321,7 +1445,9 @@ func (r *ref) eval(id int) bool {
 		}
 		v, rch := r.evalInst(n.rhs)
 		n.v = v
-		return done(lhs || rch)
+		done(lhs || rch)
+		n.ran = lhs || rch
+		return n.chg
 	}
 
 	// the clock kinds are, by their documentation, functions of the time (C15); their value is
@@ -1338,7 +1464,9 @@ func (r *ref) eval(id int) bool {
 	}
 
 	if !(fresh || n.stale || any || d.Kind == kTimer) {
-		return done(false)
+		done(false)
+		n.ran = false
+		return false
 	}
 	cutoff := func(stop bool, in int) bool {
 		if !stop {
@@ -1493,6 +1621,80 @@ func (r *ref) eval(id int) bool {
 	return done(true)
 }
 
+// apply does a step other than a pass on the reference
+func (r *ref) apply(s step) {
+	switch s.Op {
+	case "set":
+		r.varVal[s.A] = s.B
+		r.mark(s.A)
+	case "advance":
+		r.advance(s.A)
+	case "cell":
+		r.cells[s.A] = s.B
+	case "stale":
+		r.mark(s.A)
+	case "cellstale":
+		r.cells[r.p.defs[s.A].C] = s.B
+		r.mark(s.A)
+	case "observe":
+		if !r.observed[s.A] {
+			r.observed[s.A] = true
+			r.sync()
+		}
+	case "unobserve":
+		if r.observed[s.A] {
+			delete(r.observed, s.A)
+			r.sync()
+		}
+	}
+}
+
+// kinds with a user function that the harness can make fail
+var faultable = map[string]bool{kMap: true, kMap2: true, kMap3: true, kMap4: true, kMap5: true, kMap6: true, kMap7: true, kMap8: true,
+	kMapIf: true, kBindIf: true, kBind3: true, kBind4: true, kCutoff2: true, kCutEqFunc: true, kFunc: true, kAt: true,
+	kArrayFold: true, kForAll: true, kExists: true, kMapLast: true, kHash: true, kAccumulate: true, kAccSorted: true,
+	kFilter: true, kSort: true, kTakeFirstSearch: true, kTakeLastSearch: true, kMapLastS: true, kCutoffS: true}
+
+// addFaults chooses, for about one pass in four (never the first), a definition whose functions
+// fail in the twin world. The reference is run along to know which nodes run in that pass: three
+// times in four one of those is taken, otherwise any (its functions may then not be reached).
+func addFaults(rng *hx.Rand, p *prog, steps []step) {
+	r := newRef(p)
+	var all []int
+	for _, d := range p.defs {
+		if faultable[d.Kind] {
+			all = append(all, d.ID)
+		}
+	}
+	first := true
+	for i := range steps {
+		s := &steps[i]
+		if s.Op != "pass" {
+			r.apply(*s)
+			continue
+		}
+		r.pass()
+		if first || len(all) == 0 || !rng.Chance(1, 4) {
+			first = false
+			continue
+		}
+		var ran []int
+		for _, id := range all {
+			if r.inGraph[id] && r.n[id].epoch == r.epoch && r.n[id].ran {
+				ran = append(ran, id)
+			}
+		}
+		if len(ran) == 0 && rng.Chance(3, 4) {
+			continue // a pass in which nothing with a user function runs: mostly left alone
+		}
+		pick := all[rng.Intn(len(all))]
+		if len(ran) > 0 && rng.Chance(3, 4) {
+			pick = ran[rng.Intn(len(ran))]
+		}
+		s.F, s.FErr, s.RetryPar = pick+1, rng.Chance(1, 2), rng.Chance(1, 2)
+	}
+}
+
 // ---- running a history on both ----
 
 type failure struct {
@@ -1502,7 +1704,12 @@ type failure struct {
 	exp, got        string
 }
 
-type stats struct{ serial, parallel, compared, retained int }
+type stats struct {
+	serial, parallel, compared, retained int
+	// -faults
+	faulted, reached, notReached, panics, errors int
+	byKind                                       map[string]int
+}
 
 // handed is a value a slice-valued node handed out after a pass: the very slice Value()
 // returned, and what it held at that moment
@@ -1528,113 +1735,257 @@ func sameSlice(a, b []int) bool {
 // engine panics and spurious pass errors -- and leave value differences to the checks of C01/C11/C14/C15.
 var structuralOnly bool
 
-// run replays the steps on a fresh graph and a fresh reference; nil if they agree throughout
+// faultMode (-faults): every history also runs on a twin world in which, at the passes the
+// generator chose, the user functions of one definition fail; the failed pass is retried
+// fault-free and the twin must then equal the fault-free world node for node (C07)
+var faultMode bool
+
+// apply does a step other than a pass on the library
+func (w *world) apply(s step) {
+	switch s.Op {
+	case "set":
+		w.vars[s.A].Set(s.B)
+	case "advance":
+		w.now += s.A
+		w.clock.Advance(minute(w.now))
+	case "cell":
+		w.cells[s.A] = s.B
+	case "stale":
+		w.g.SetStale(w.ints[s.A])
+	case "cellstale":
+		w.cells[w.p.defs[s.A].C] = s.B
+		w.g.SetStale(w.ints[s.A])
+	case "observe":
+		if _, on := w.obs[s.A]; !on {
+			w.obs[s.A] = incr.MustObserve(w.g, w.ints[s.A])
+		}
+	case "unobserve":
+		if o, on := w.obs[s.A]; on {
+			o.Unobserve(ctx)
+			delete(w.obs, s.A)
+		}
+	}
+}
+
+func (w *world) pass(par bool, st *stats) error {
+	if par {
+		st.parallel++
+		return w.g.ParallelStabilize(ctx)
+	}
+	st.serial++
+	return w.g.Stabilize(ctx)
+}
+
+// checkHanded: values are values: what a node handed out after an earlier pass (and a dependent
+// or the caller may have kept) must not be written again. Then the values of this pass are kept.
+func (w *world) checkHanded(r *ref, i int, s step, st *stats, where string) *failure {
+	p := w.p
+	for _, h := range w.retained {
+		if !structuralOnly && !sameSlice(h.got, h.copy) {
+			d := p.defs[h.id]
+			return &failure{key: "kinds:" + d.Kind + ":handed-out-value-mutated", kind: d.Kind, step: i, node: h.id,
+				exp: fmt.Sprint(h.copy), got: fmt.Sprint(h.got),
+				what: fmt.Sprintf("%sthe slice that %s returned from Value() after step %d held %v then; after step %d (%s) that same slice holds %v",
+					where, d, h.step, h.copy, i, s, h.got)}
+		}
+	}
+	for id, d := range p.defs {
+		if !d.Slice || !r.inGraph[id] {
+			continue
+		}
+		v := w.slices[id].Value()
+		if old := w.latest[id]; len(v) == 0 || (len(old) == len(v) && &old[0] == &v[0]) {
+			continue // nothing to watch, or the slice already retained
+		}
+		w.latest[id] = v
+		w.retained = append(w.retained, handed{id: id, step: i, got: v, copy: append([]int(nil), v...)})
+		st.retained++
+	}
+	return nil
+}
+
+// finish releases every observer and checks that the graph drains
+func (w *world) finish(at int, where string) *failure {
+	eg := incr.ExpertGraph(w.g)
+	for root, o := range w.obs {
+		o.Unobserve(ctx)
+		delete(w.obs, root)
+	}
+	if n := eg.NumNodes(); n != 0 {
+		return &failure{key: "kinds:engine:numnodes", kind: "engine", step: at, node: -1,
+			what: fmt.Sprintf("%sNumNodes() is %d after every observer was released", where, n)}
+	}
+	if err := eg.CheckInvariants(); err != nil {
+		return &failure{key: "kinds:engine:invariants", kind: "engine", step: at, node: -1,
+			what: fmt.Sprintf("%sCheckInvariants after every observer was released: %.300v", where, err)}
+	}
+	return nil
+}
+
+// run replays the steps on a fresh graph and a fresh reference (and with -faults on the twin
+// world); nil if they agree throughout
 func run(p *prog, steps []step) (f *failure, st stats) {
 	at := -1
+	st.byKind = map[string]int{}
 	defer func() {
 		if rec := recover(); rec != nil {
 			f = &failure{key: "kinds:engine:panic", kind: "engine", step: at, node: -1,
 				what: fmt.Sprintf("panic at step %d: %.300v", at, rec)}
 		}
 	}()
-	w, r := newWorld(p), newRef(p)
+	w, r := newWorldAPI(p, faultMode), newRef(p)
+	var twin *world
+	if faultMode {
+		twin = newWorldAPI(p, true)
+	}
 	eg := incr.ExpertGraph(w.g)
-	var retained []handed
-	latest := map[int][]int{}
 	for i, s := range steps {
 		at = i
-		switch s.Op {
-		case "set":
-			w.vars[s.A].Set(s.B)
-			r.varVal[s.A] = s.B
-			r.mark(s.A)
-		case "advance":
-			w.now += s.A
-			w.clock.Advance(minute(w.now))
-			r.advance(s.A)
-		case "cell":
-			w.cells[s.A], r.cells[s.A] = s.B, s.B
-		case "stale":
-			w.g.SetStale(w.ints[s.A])
-			r.mark(s.A)
-		case "cellstale":
-			c := p.defs[s.A].C
-			w.cells[c], r.cells[c] = s.B, s.B
-			w.g.SetStale(w.ints[s.A])
-			r.mark(s.A)
-		case "observe":
-			if _, on := w.obs[s.A]; !on {
-				w.obs[s.A] = incr.MustObserve(w.g, w.ints[s.A])
-				r.observed[s.A] = true
-				r.sync()
+		if s.Op != "pass" {
+			w.apply(s)
+			if twin != nil {
+				twin.apply(s)
 			}
-		case "unobserve":
-			if o, on := w.obs[s.A]; on {
-				o.Unobserve(ctx)
-				delete(w.obs, s.A)
-				delete(r.observed, s.A)
-				r.sync()
-			}
-		case "pass":
-			var err error
-			if s.Par {
-				err = w.g.ParallelStabilize(ctx)
-				st.parallel++
-			} else {
-				err = w.g.Stabilize(ctx)
-				st.serial++
-			}
-			if err != nil {
-				return &failure{key: "kinds:engine:pass-error", kind: "engine", step: i, node: -1,
-					what: fmt.Sprintf("%s returned an error on a program without failing functions: %.200v", s, err)}, st
-			}
-			r.pass()
-			// values are values: what a node handed out after an earlier pass (and a dependent
-			// or the caller may have kept) must not be written again
-			for _, h := range retained {
-				if !structuralOnly && !sameSlice(h.got, h.copy) {
-					d := p.defs[h.id]
-					return &failure{key: "kinds:" + d.Kind + ":handed-out-value-mutated", kind: d.Kind, step: i, node: h.id,
-						exp: fmt.Sprint(h.copy), got: fmt.Sprint(h.got),
-						what: fmt.Sprintf("the slice that %s returned from Value() after step %d held %v then; after step %d (%s) that same slice holds %v",
-							d, h.step, h.copy, i, s, h.got)}, st
-				}
-			}
-			for id, d := range p.defs {
-				if !d.Slice || !r.inGraph[id] {
-					continue
-				}
-				v := w.slices[id].Value()
-				if old := latest[id]; len(v) == 0 || (len(old) == len(v) && &old[0] == &v[0]) {
-					continue // nothing to watch, or the slice already retained
-				}
-				latest[id] = v
-				retained = append(retained, handed{id: id, step: i, got: v, copy: append([]int(nil), v...)})
-				st.retained++
-			}
-			if f := compare(w, r, i, &st); f != nil {
-				return f, st
-			}
-			if err := eg.CheckInvariants(); err != nil {
-				return &failure{key: "kinds:engine:invariants", kind: "engine", step: i, node: -1,
-					what: fmt.Sprintf("CheckInvariants after %s (step %d): %.300v", s, i, err)}, st
-			}
+			r.apply(s)
+			continue
+		}
+		if err := w.pass(s.Par, &st); err != nil {
+			return &failure{key: "kinds:engine:pass-error", kind: "engine", step: i, node: -1,
+				what: fmt.Sprintf("%s returned an error on a program without failing functions: %.200v", s, err)}, st
+		}
+		r.pass()
+		if f := w.checkHanded(r, i, s, &st, ""); f != nil {
+			return f, st
+		}
+		if f := compare(w, r, i, &st); f != nil {
+			return f, st
+		}
+		if err := eg.CheckInvariants(); err != nil {
+			return &failure{key: "kinds:engine:invariants", kind: "engine", step: i, node: -1,
+				what: fmt.Sprintf("CheckInvariants after %s (step %d): %.300v", s, i, err)}, st
+		}
+		if twin == nil {
+			continue
+		}
+		if f := runTwinPass(w, twin, r, i, s, &st); f != nil {
+			return f, st
 		}
 	}
 	at = len(steps)
-	for root, o := range w.obs {
-		o.Unobserve(ctx)
-		delete(w.obs, root)
+	if f := w.finish(len(steps), ""); f != nil {
+		return f, st
 	}
-	if n := eg.NumNodes(); n != 0 {
-		return &failure{key: "kinds:engine:numnodes", kind: "engine", step: len(steps), node: -1,
-			what: fmt.Sprintf("NumNodes() is %d after every observer was released", n)}, st
-	}
-	if err := eg.CheckInvariants(); err != nil {
-		return &failure{key: "kinds:engine:invariants", kind: "engine", step: len(steps), node: -1,
-			what: fmt.Sprintf("CheckInvariants after every observer was released: %.300v", err)}, st
+	if twin != nil {
+		if f := twin.finish(len(steps), "twin world: "); f != nil {
+			return f, st
+		}
 	}
 	return nil, st
+}
+
+// runTwinPass does the pass of step i on the twin world: with the chosen fault, then, if the
+// fault was reached, the fault-free retry; afterwards the twin must equal the fault-free world
+func runTwinPass(w, twin *world, r *ref, i int, s step, st *stats) *failure {
+	teg := incr.ExpertGraph(twin.g)
+	fail := func(key, what string) *failure {
+		return &failure{key: key, kind: "engine", step: i, node: -1, what: what}
+	}
+	if s.F > 0 {
+		twin.failNode, twin.failErr = s.F-1, s.FErr
+		atomic.StoreInt32(&twin.hits, 0)
+		atomic.StoreInt32(&twin.panicked, 0)
+		atomic.StoreInt32(&twin.returned, 0)
+		st.faulted++
+	}
+	err := twin.pass(s.Par, st)
+	twin.failNode = -1
+	switch {
+	case s.F > 0 && atomic.LoadInt32(&twin.hits) > 0:
+		d := twin.p.defs[s.F-1]
+		st.reached++
+		st.byKind[d.Kind]++
+		panicked, returned := atomic.LoadInt32(&twin.panicked) != 0, atomic.LoadInt32(&twin.returned) != 0
+		if panicked {
+			st.panics++
+		}
+		if returned {
+			st.errors++
+		}
+		var pe *incr.PanicError
+		switch {
+		case err == nil:
+			return fail("kinds:engine:fault-not-returned", fmt.Sprintf("a function of %s failed during step %d (%s) and the pass returned nil", d, i, s))
+		case !errors.Is(err, errInjected):
+			return fail("kinds:engine:fault-not-returned", fmt.Sprintf("a function of %s failed during step %d (%s) and the pass returned another error: %.200v", d, i, s, err))
+		case panicked && !returned && !(errors.As(err, &pe) && pe.Value == any(errInjected)):
+			return fail("kinds:engine:fault-not-returned", fmt.Sprintf("a function of %s panicked during step %d (%s) and the pass did not return a *PanicError carrying the panic value: %.200v", d, i, s, err))
+		}
+		if ierr := teg.CheckInvariants(); ierr != nil {
+			return fail("kinds:engine:invariants-after-fault", fmt.Sprintf("CheckInvariants after the failed pass of step %d (%s; failing: %s): %.300v", i, s, d, ierr))
+		}
+		if rerr := twin.pass(s.RetryPar, st); rerr != nil {
+			return fail("kinds:engine:fault-retry-error", fmt.Sprintf("the fault-free retry after the failed pass of step %d (%s; failing: %s) returned an error: %.200v", i, s, d, rerr))
+		}
+	case err != nil:
+		return fail("kinds:engine:pass-error", fmt.Sprintf("twin world: %s returned an error although no function failed: %.200v", s, err))
+	case s.F > 0:
+		st.notReached++
+	}
+	if f := twin.checkHanded(r, i, s, st, "twin world: "); f != nil {
+		return f
+	}
+	if f := compareWorlds(w, twin, r, i, s); f != nil {
+		return f
+	}
+	if ierr := teg.CheckInvariants(); ierr != nil {
+		return fail("kinds:engine:invariants", fmt.Sprintf("twin world: CheckInvariants after %s (step %d): %.300v", s, i, ierr))
+	}
+	return nil
+}
+
+// compareWorlds: after its pass (and retry) the twin must hold, in every node the reference
+// says is in the graph, what the fault-free world holds; same membership, same Watch lists
+func compareWorlds(w, twin *world, r *ref, i int, s step) *failure {
+	differs := func(d *def, what, exp, got string) *failure {
+		return &failure{key: "kinds:" + d.Kind + ":fault-retry-differs", kind: d.Kind, step: i, node: d.ID, exp: exp, got: got,
+			what: fmt.Sprintf("after step %d (%s) %s of %s is %s in the twin world and %s in the fault-free world", i, s, what, d, got, exp)}
+	}
+	var membership *failure
+	for id, d := range r.p.defs {
+		var a, b incr.INode = w.ints[id], twin.ints[id]
+		if d.Slice {
+			a, b = w.slices[id], twin.slices[id]
+		}
+		if ha, hb := w.g.Has(a), twin.g.Has(b); ha != hb {
+			if membership == nil {
+				membership = differs(d, "membership in the graph", fmt.Sprint(ha), fmt.Sprint(hb))
+			}
+			continue
+		}
+		if !r.inGraph[id] || structuralOnly {
+			continue
+		}
+		if d.Slice {
+			if x, y := w.slices[id].Value(), twin.slices[id].Value(); !sameSlice(x, y) {
+				return differs(d, "the value", fmt.Sprint(x), fmt.Sprint(y))
+			}
+			continue
+		}
+		if x, y := w.ints[id].Value(), twin.ints[id].Value(); x != y {
+			return differs(d, "the value", fmt.Sprint(x), fmt.Sprint(y))
+		}
+		if wt, ok := w.watches[id]; ok {
+			if x, y := wt.Values(), twin.watches[id].Values(); !sameSlice(x, y) {
+				return differs(d, "Values()", fmt.Sprint(x), fmt.Sprint(y))
+			}
+		}
+	}
+	for root, o := range w.obs {
+		if x, y := o.Value(), twin.obs[root].Value(); !structuralOnly && x != y {
+			return differs(r.p.defs[root], "the observer", fmt.Sprint(x), fmt.Sprint(y))
+		}
+	}
+	return membership
 }
 
 // compare checks every node the reference knows to be in the graph, lowest first (a node's
@@ -1691,7 +2042,7 @@ func compare(w *world, r *ref, stepIndex int, st *stats) *failure {
 func fails(p *prog, steps []step) *failure {
 	tries := 1
 	for _, s := range steps {
-		if s.Op == "pass" && s.Par {
+		if s.Op == "pass" && (s.Par || (s.F > 0 && s.RetryPar)) {
 			tries = 3
 		}
 	}
@@ -1713,7 +2064,7 @@ func shrink(p *prog, steps []step, f *failure) ([]step, *failure) {
 	}
 	serial := append([]step(nil), steps...)
 	for i := range serial {
-		serial[i].Par = false
+		serial[i].Par, serial[i].RetryPar = false, false
 	}
 	if g := fails(p, serial); g != nil {
 		steps, f = serial, g
@@ -1721,6 +2072,15 @@ func shrink(p *prog, steps []step, f *failure) ([]step, *failure) {
 	for sweep := 0; sweep < 2; sweep++ {
 		for i := len(steps) - 1; i >= 0; i-- {
 			cand := append(append([]step(nil), steps[:i]...), steps[i+1:]...)
+			if g := fails(p, cand); g != nil {
+				steps, f = cand, g
+			}
+		}
+	}
+	for i := range steps { // the faults that are not needed
+		if steps[i].F > 0 {
+			cand := append([]step(nil), steps...)
+			cand[i].F = 0
 			if g := fails(p, cand); g != nil {
 				steps, f = cand, g
 			}
@@ -1744,11 +2104,13 @@ func main() {
 		jsonOut = flag.String("json", "", "report file")
 		claim   = flag.String("claim", "C01", "property the violations are reported for")
 		structF = flag.Bool("structural", false, "report only structural findings (invariants, membership, drain, panics, spurious errors)")
+		faultsF = flag.Bool("faults", false, "also run every history on a twin world with injected faults and fault-free retries (C07)")
 		only    = flag.Int("history", -1, "run only the history with this index, and print it")
 		verbose = flag.Bool("v", false, "print the violations")
 	)
 	flag.Parse()
 	structuralOnly = *structF
+	faultMode = *faultsF
 	rep := hx.NewReport("kindtrace", *seed)
 	rng := hx.NewRand(*seed)
 	perKey := map[string]int{}
@@ -1759,6 +2121,16 @@ func main() {
 		}
 		p := genProgram(hr)
 		mode, steps := genHistory(hr, p)
+		if faultMode {
+			// a Timer that is due in every pass also runs in the failed pass and again in the
+			// retry: its dependents legitimately run once more than in the fault-free world
+			for _, d := range p.defs {
+				if d.Kind == kTimer {
+					d.C = 1
+				}
+			}
+			addFaults(hr.Fork(), p, steps)
+		}
 		if *only >= 0 {
 			fmt.Printf("history %d (%s), roots %v\n  %s\n  %s\n", index, mode, p.roots, strings.Join(p.lines(), "\n  "), strings.Join(stepStrings(steps), "\n  "))
 		}
@@ -1790,6 +2162,16 @@ func main() {
 		rep.Histogram["passes:parallel"] += st.parallel
 		rep.Histogram["nodes-compared"] += st.compared
 		rep.Histogram["handed-out-slices-retained"] += st.retained
+		if faultMode {
+			rep.Histogram["faults:passes-with-a-fault"] += st.faulted
+			rep.Histogram["faults:reached"] += st.reached
+			rep.Histogram["faults:not-reached"] += st.notReached
+			rep.Histogram["faults:panicked"] += st.panics
+			rep.Histogram["faults:returned-error"] += st.errors
+			for k, v := range st.byKind {
+				rep.Histogram["faults:reached-in:"+k] += v
+			}
+		}
 		if f == nil {
 			continue
 		}
@@ -1808,13 +2190,18 @@ func main() {
 			Replay: map[string]any{"seed": *seed, "history": index, "mode": mode, "program": p.lines(), "roots": p.roots,
 				"steps": stepStrings(small), "steps_before_shrinking": len(steps), "failing_step": g.step, "node": g.node,
 				"expected": g.exp, "got": g.got,
-				"cmd": fmt.Sprintf("harness/cmd/kindtrace -seed %d -n %d -history %d", *seed, *n, index)}})
+				"cmd": fmt.Sprintf("harness/cmd/kindtrace%s -seed %d -n %d -history %d", map[bool]string{true: " -faults"}[faultMode], *seed, *n, index)}})
 	}
 	rep.Rule = fmt.Sprintf("%d random int-valued programs of 11-35 nodes over Map3..8, MapIf, BindIf/Bind3/Bind4 (templates to depth 3 with nested BindIf, "+
 		"referring to outer nodes), Cutoff2 and the named cutoffs, Freeze, Func, Watch, Timer, At/AtIntervals/Snapshot/StepFunction, ArrayFold/ForAll/Exists/DependOn/All, "+
 		"incrutil.CutoffUnchanged/MapLast and slicei (with MapLast and a length Cutoff over the slice-valued nodes, which keep a previous value), one history each of 10-60 steps (Set incl. unchanged values, Clock.Advance, SetStale, observe/unobserve, passes: "+
 		"all Stabilize, all ParallelStabilize at parallelism 4, or mixed); evaluations = passes; after every pass every node in the graph, every observer and "+
 		"Watch.Values() compared with an independent reference evaluation, every slice handed out by Value() after an earlier pass checked to be unchanged, CheckInvariants, NumNodes()==0 after the last Unobserve", rep.Distinct)
+	if faultMode {
+		rep.Rule += "; -faults: every history also on a twin world where at about one pass in four (never the first) every user function of one chosen definition " +
+			"panics or returns an error: that pass must return the injected error (*PanicError carrying it for a panic), leave CheckInvariants clean, the immediate " +
+			"fault-free retry (serial or parallel, independently) must succeed, and then every node in the graph, Watch.Values(), membership and observers must equal the fault-free world (Timer only with every 1h)"
+	}
 	if *jsonOut != "" {
 		if err := rep.Write(*jsonOut); err != nil {
 			fmt.Fprintln(os.Stderr, err)
